@@ -15,6 +15,13 @@ FillEv == /\ More /\ Ev.op = "fill"
           /\ Same /\ Chk("leaf_counts", LeafCounts(tree', Ev.id), Ev.counts) /\ cfg' = cfg /\ Adv
 ResetEv == /\ More /\ Ev.op = "reset"
            /\ tree' = SetAll(tree, Ev.id, Ev.value) /\ Same /\ cfg' = cfg /\ Adv
+(* real-valued data (decimal grids, continuous values), for which the tree itself is not re-derived here: the relational clauses of the
+   property - the build data filed under another id reproduce the build counts leaf by leaf, their divergence is 0, the counts add up *)
+RefillEv == /\ More /\ Ev.op = "refill"
+            /\ Chk("filling the build data under another id reproduces the build counts", Ev.cb, Ev.cf)
+            /\ Chk("leaf counts add up to the number of points", SumInts(Ev.cb), Ev.n)
+            /\ ChkB("kl_distance of equal counts is 0", Close(Ev.kl, "0.0"), Ev.kl)
+            /\ UNCHANGED <<cfg, tree>> /\ Adv
 KlOK(d) == ChkB("kl_distance", Close(d, Ev.kl), <<d, Ev.kl>>)
 KlEv == /\ More /\ Ev.op = "kl"
         /\ KlOK(KLDist(tree, Ev.id1, Ev.id2))
@@ -31,6 +38,6 @@ RowsOK(rows) == /\ Chk("plotly rows", rows, Ev.rows)
 PlotlyEv == /\ More /\ Ev.op = "plotly"
             /\ RowsOK(PlotlyD(tree, Ev.id1, Ev.id2, Ev.maxd))
             /\ UNCHANGED <<cfg, tree>> /\ Adv
-Next == BuildEv \/ FillEv \/ ResetEv \/ KlEv \/ PlotlyEv
+Next == BuildEv \/ FillEv \/ ResetEv \/ KlEv \/ PlotlyEv \/ RefillEv
 Spec == Init /\ [][Next]_tvars
 =============================================================================
